@@ -429,6 +429,13 @@ def gen_model(rng, cfg=None, feats=None):
         terms.append(f"{rnd(rng, -0.4, 0.4)} * {dC[0]} * {dC[1]}")
     if dS and dC:
         terms.append(f"{rnd(rng, -0.4, 0.4)} * {dS[0]} * {dC[-1]}")
+        if rng.random() < 0.5:
+            # switching cost: a DIFFERENCE of two discrete variables (negative intermediate values)
+            terms.append(f"- {rnd(rng, 0.05, 0.5)} * xp.abs({dC[-1]} - {dS[0]})")
+            realised["discrete_difference"] = True
+    if len(dC) >= 2 and rng.random() < 0.4:
+        terms.append(f"- {rnd(rng, 0.05, 0.3)} * xp.abs({dC[0]} - {dC[1]})")
+        realised["discrete_difference"] = True
     if len(cC) >= 2:
         terms.append(f"{rnd(rng, -0.05, 0.05)} * {cC[0]} * {cC[1]}")
     if len(cS) >= 2:
